@@ -48,7 +48,15 @@ def main():
     open(tests, "w").write(orig + "\n" + demo + "\n")
     (res1, p1, f1), out1 = cargo_test()
     failing = re.findall(r"test tests::(\w+) \.\.\. FAILED", out1)
-    if res1 == "build-failed":
+    if res1 == "build-failed" and ("SIGABRT" in out1 or "stack overflow" in out1 or "SIGSEGV" in out1):
+        # the test process died: attribute the crash to the demo test(s) by running them alone
+        failing = []
+        for tn in tnames:
+            (r_, p_, f_), o_ = cargo_test("tests::" + tn)
+            if r_ != "ok" or "SIGABRT" in o_ or "stack overflow" in o_:
+                failing.append(tn)
+        res1 = "crashed"
+    elif res1 == "build-failed":
         print("FAIL: demo does not build with patch\n" + out1[-2000:]); return 1
     demo_failed = [t for t in tnames if t in failing]
     other_failed = [t for t in failing if t not in tnames]
